@@ -244,6 +244,9 @@ fn packing_name(c: &Case) -> String {
 }
 
 pub fn run(c: &Case) -> Outcome {
+    let dbg = std::env::var_os("C20_DEBUG").is_some();
+    let t00 = Instant::now();
+    macro_rules! d { ($($a:tt)*) => { if dbg { eprintln!("[{:?}] {}", t00.elapsed(), format!($($a)*)); } } }
     let mut out = Outcome::new();
     let trivial_packing = c.records == RecordPacking::OnePerRecord && c.socket == SocketPacking::PerRecord;
     out.nontrivial(!trivial_packing || c.end != EndMode::None);
@@ -274,8 +277,8 @@ pub fn run(c: &Case) -> Outcome {
         let st = stop_writers.clone();
         writers.push(std::thread::spawn(move || {
             let mut i = 0u16;
-            // bounded: the server side does not read input during a scenario, the socket buffer must never fill up
-            while !st.load(Ordering::Relaxed) && i < 300 {
+            // bounded: the server side does not read input during a scenario and a unix socket accounts ~1 KB per small write: the buffer must never fill up (a writer blocked inside write holds the client lock)
+            while !st.load(Ordering::Relaxed) && i < 40 {
                 if let Ok(mut g) = cl.lock() {
                     let _ = g.try_write(RdpEvent::Pointer(PointerEvent { x: i, y: w as u16, button: PointerButton::None, down: false }));
                 }
@@ -293,9 +296,11 @@ pub fn run(c: &Case) -> Outcome {
     if let Err(e) = send(&mut s, &records, c.socket, c.pause) {
         io_err = Some(e.to_string());
     }
+    d!("sent {} records", records.len());
     // (i) keeps up: the server is now silent and open
     collect(&s.rx, &mut got, before_end, T_DELIVER);
     let want: Vec<u16> = (0..before_end as u16).collect();
+    d!("collected {:?}", got);
     let finish = |s: &mut Session, stop_writers: &Arc<AtomicBool>, writers: Vec<std::thread::JoinHandle<()>>| {
         // release whatever is still running so that the next scenario starts clean
         stop_writers.store(true, Ordering::Relaxed);
@@ -325,7 +330,9 @@ pub fn run(c: &Case) -> Outcome {
         if in_order_prefix && s.handle.as_ref().map(|h| !h.is_finished()).unwrap_or(false) {
             // confirm: one more PDU from the server; if the missing events arrive now, the thread was waiting for further traffic
             let poke = serial_pdu(9999);
+            d!("poking");
             let _ = s.tls.write_all(&poke);
+            d!("poked");
             let mut after: Vec<u16> = got.clone();
             collect(&s.rx, &mut after, before_end + 1, Duration::from_secs(2));
             let mut want_after = want.clone();
@@ -338,7 +345,9 @@ pub fn run(c: &Case) -> Outcome {
         } else {
             out.fail(format!("delivery:wrong-events:{}", packing_name(c)), format!("sent serials {:?}, received {:?}", want, got));
         }
+        d!("finishing");
         finish(&mut s, &stop_writers, writers);
+        d!("finished");
         return out;
     }
     // (ii) the end event
